@@ -279,10 +279,11 @@ class MailboxData(MailboxDataInterface[Message]):
                    recent: bool = False) -> int | None:
         dest_maildir = destination._maildir
         try:
-            record, maildir_msg = await self._get_maildir_msg(uid)
-        except KeyError:
+            record, _ = await self._get_maildir_msg(uid)
+            async with self.messages_lock.read_lock():
+                copy_msg = self._maildir.get_message(record.key)
+        except (KeyError, FileNotFoundError):
             return None
-        copy_msg = MaildirMessage(maildir_msg)
         copy_msg.set_subdir('new' if recent else 'cur')
         async with destination.messages_lock.write_lock():
             dest_key = dest_maildir.add(copy_msg)
